@@ -353,3 +353,56 @@ def idmap_order(ctx, repo, rels=("feaLib/builder.py", "otlLib/builder.py")):
             ctx.ob("IDMAP", where, f"{d}: id map with {uses} sorted consumer(s)", True)
 
 ALL += [context_reset, idmap_order]
+
+
+# ---------------------------------------------------------------------------
+# PAR-COV: arrays indexed by coverage index are generated by walking that coverage
+# ---------------------------------------------------------------------------
+def parallel_to_coverage(ctx, repo):
+    from .exhaust import COVERAGE_PARALLEL
+
+    ctx.rule("PAR-COV", "otlLib builders: an array the OpenType spec indexes by Coverage index is produced by iterating that Coverage's glyph list (which buildCoverage sorted by glyph id), never from the caller's own ordering", floor=5)
+    par = {}  # coverage field -> set of array leaf names
+    for spec in COVERAGE_PARALLEL.values():
+        for cov, arrays in spec.items():
+            for a in arrays:
+                par.setdefault(cov, set()).add(a.split(".")[-1])
+    mod = repo.mod("otlLib/builder.py")
+    for q, f in sorted(mod.funcs.items()):
+        covs = {}  # (obj, covfield) from `obj.cov = buildCoverage(...)`
+        for st in walk_no_nested(f.node):
+            if isinstance(st, ast.Assign) and isinstance(st.value, ast.Call) and call_name(st.value) == "buildCoverage":
+                for t in st.targets:
+                    if isinstance(t, ast.Attribute) and t.attr in par:
+                        covs[(norm(t.value), t.attr)] = st
+        for (obj, cov), cst in covs.items():
+            glyphs_expr = f"{obj}.{cov}.glyphs"
+            for st in walk_no_nested(f.node):
+                if not (isinstance(st, ast.Assign) and len(st.targets) == 1 and isinstance(st.targets[0], ast.Attribute) and norm(st.targets[0].value) == obj and st.targets[0].attr in par[cov]):
+                    continue
+                arr = st.targets[0].attr
+                v = st.value
+                ok = None
+                how = ""
+                if isinstance(v, ast.Name):
+                    # follow one local definition
+                    d = [s for s in walk_no_nested(f.node) if isinstance(s, ast.Assign) and any(isinstance(t, ast.Name) and t.id == v.id for t in s.targets)]
+                    if len(d) == 1:
+                        v = d[0].value
+                if isinstance(v, (ast.ListComp, ast.GeneratorExp)):
+                    ok = norm(v.generators[0].iter) == glyphs_expr
+                    how = f"comprehension over {norm(v.generators[0].iter)}"
+                elif isinstance(v, ast.List) and not v.elts:
+                    loops = [l for l in walk_no_nested(f.node) if isinstance(l, ast.For) and norm(l.iter) == glyphs_expr and any(isinstance(c, ast.Call) and norm(c.func) == f"{obj}.{arr}.append" for c in ast.walk(l))]
+                    ok = bool(loops)
+                    how = "filled by a loop over " + (glyphs_expr if ok else "something else")
+                elif isinstance(v, ast.Call) and call_name(v) in ("list", "tuple", "sorted"):
+                    ok = glyphs_expr in norm(v)
+                    how = norm(v)[:60]
+                elif isinstance(v, ast.Constant) and v.value is None:
+                    continue
+                if ok is None:
+                    continue  # built by a helper: not decided here
+                ctx.ob("PAR-COV", f.where, f"{obj}.{arr} (indexed by {cov}): {how}", ok, "" if ok else f"records are not in the order of {glyphs_expr}: every glyph gets another glyph's record")
+
+ALL.append(parallel_to_coverage)
